@@ -57,6 +57,11 @@ FULL = {
     'L': ['none', 'param', 'before', 'after', 'pdef'],
     'G': ['none', 'for', 'before', 'after', 'foriter', 'forif', 'for2', 'for2iter'],
 }
+# leading-name first iterables (box renderings): the comprehension iterates `x`, `x.copy()` or
+# `x[0]` -- a use of the ENCLOSING scope that is the first leaf of the iterable -- with target `_`
+# (lead*) or target `x` itself (leadself*)
+LEAD = dict(CORE, G=['none', 'for'] + ['lead', 'leadcall', 'leadsub', 'leadself', 'leadselfcall',
+                                       'leadselfsub'])
 HAS_B = ('before', 'after', 'late', 'both', 'gbind', 'nlbind', 'pbefore')
 FORMS = ['assign', 'import', 'for', 'with', 'except', 'walrus', 'delrebind', 'selfref']
 CHILD_KINDS = {'M': 'FCLG', 'F': 'FCLG', 'C': 'FCLG', 'L': 'LG', 'G': 'LG'}
@@ -147,13 +152,27 @@ def pairs(alpha, forms, kinds='FCLG', under=('M',)):
 
 # --- rendering -------------------------------------------------------------------------------
 
+def split_style(style):
+    """'list+box+mix' -> ('list', ['box', 'mix'])"""
+    parts = style.split('+')
+    return parts[0], parts[1:]
+
+
+LEAD_FORMS = {'': 'x', 'call': 'x.copy()', 'sub': 'x[0]'}
+LEAD_PATTERNS = ['lead', 'leadcall', 'leadsub', 'leadself', 'leadselfcall', 'leadselfsub']
+
+
 class Render:
     """Deterministic text of a shape.  `style` is the comprehension flavour (list/gen/set/dict);
     `dead` the use numbers that are replaced by the literal 0 (uses that raise NameError)."""
 
     def __init__(self, shape, style='list', dead=()):
-        style, _, distract = style.partition('+')
+        style, opts = split_style(style)
         self.style = style
+        # `box`: every tag is written as b(T), an iterable object that carries its tag, so that
+        # a bare `x` (or `x.copy()`, `x[0]`) can be the first iterable of a comprehension
+        self.box = 'box' in opts
+        distract = ([o for o in opts if o != 'box'] or [''])[0]
         self.distract = DISTRACTORS if distract == 'mix' else [distract] if distract else []
         self.distractors = []   # (line, col) of the x in every distractor
         self.dead = set(dead)
@@ -192,6 +211,9 @@ class Render:
         self.ntag += 1
         return self.ntag, '\x01B%d\x02x' % self.ntag
 
+    def v(self, t):
+        return 'b(%d)' % t if self.box else '%d' % t
+
     def U(self):
         self.nuse += 1
         k = self.nuse
@@ -203,7 +225,7 @@ class Render:
         """-> (lines, indent for the first use after it)"""
         if form == 'assign':
             t, b = self.B()
-            return [ind + '%s = %d' % (b, t)], ind
+            return [ind + '%s = %s' % (b, self.v(t))], ind
         if form == 'import':
             t, b = self.B()
             mod = MODS[len(self.modtags) % len(MODS)]
@@ -211,25 +233,27 @@ class Render:
             return [ind + 'import %s as %s' % (mod, b)], ind
         if form == 'walrus':
             t, b = self.B()
-            return [ind + '(%s := %d)' % (b, t)], ind
+            return [ind + '(%s := %s)' % (b, self.v(t))], ind
         if form == 'delrebind':
             t0, b0 = self.B()
             t, b = self.B()
-            return [ind + '%s = %d' % (b0, t0), ind + 'del \x01X\x02x', ind + '%s = %d' % (b, t)], ind
+            return [ind + '%s = %s' % (b0, self.v(t0)), ind + 'del \x01X\x02x',
+                    ind + '%s = %s' % (b, self.v(t))], ind
         if form == 'selfref':     # the right-hand side still sees the previous binding
             t0, b0 = self.B()
             use = self.U()
             t, b = self.B()
-            return [ind + '%s = %d' % (b0, t0), ind + '%s = [%s, %d][1]' % (b, use, t)], ind
+            return [ind + '%s = %s' % (b0, self.v(t0)),
+                    ind + '%s = [%s, %s][1]' % (b, use, self.v(t))], ind
         if form == 'for':
             t, b = self.B()
-            return [ind + 'for %s in [%d]:' % (b, t)], ind + IND
+            return [ind + 'for %s in [%s]:' % (b, self.v(t))], ind + IND
         if form == 'with':
             t, b = self.B()
-            return [ind + 'with cm(%d) as %s:' % (t, b)], ind + IND
+            return [ind + 'with cm(%s) as %s:' % (self.v(t), b)], ind + IND
         if form == 'except':
             t, b = self.B()
-            return [ind + 'try:', ind + IND + 'raise Exception(%d)' % t,
+            return [ind + 'try:', ind + IND + 'raise Exception(%s)' % self.v(t),
                     ind + 'except Exception as %s:' % b], ind + IND
         raise ValueError(form)
 
@@ -237,11 +261,11 @@ class Render:
         """-> (parameter list text, call argument text)"""
         if pat in ('param', 'pbefore'):
             t, b = self.B()
-            return b, str(t)
+            return b, self.v(t)
         if pat == 'pdef':
             use = self.U()
             t, b = self.B()
-            return '%s=[%s, %d][1]' % (b, use, t), ''
+            return '%s=[%s, %s][1]' % (b, use, self.v(t)), ''
         return '', ''
 
     def child_stmt(self, scope, ind):
@@ -340,7 +364,7 @@ class Render:
 
         def walrus():
             t, b = self.B()
-            return '(%s := %d)' % (b, t)
+            return '(%s := %s)' % (b, self.v(t))
 
         if pat == 'before':
             el.append(walrus())
@@ -360,22 +384,40 @@ class Render:
     def comp(self, scope):
         kind, pat, form, kids = scope
         cond = ''
+        arm = ''
         if pat in ('for', 'foriter', 'forif'):
             # the iterable is evaluated (in the enclosing scope) before the target is bound
             if pat == 'foriter':
                 use = self.U()
                 t, b = self.B()
-                it = '[%s, %d][1:]' % (use, t)
+                it = '[%s, %s][1:]' % (use, self.v(t))
             else:
                 t, b = self.B()
-                it = '[%d]' % t
+                it = '[%s]' % self.v(t)
             target = b
         elif pat == 'for2':
             t, b = self.B()
-            target, it = '_', '[0] for %s in [%d]' % (b, t)
+            target, it = '_', '[0] for %s in [%s]' % (b, self.v(t))
         elif pat == 'for2iter':
             t, b = self.B()
-            target, it = b, '[%d] for _ in [%s]' % (t, self.U())
+            target, it = b, '[%s] for _ in [%s]' % (self.v(t), self.U())
+        elif pat in LEAD_PATTERNS:
+            # the first iterable *starts with* the identifier: a use of the enclosing scope whose
+            # value is observed when the object is iterated (arm(k, T): the next iteration is use
+            # k and yields b(T)); box renderings only
+            own = pat.startswith('leadself')
+            form = LEAD_FORMS[pat[len('leadself' if own else 'lead'):]]
+            self.nuse += 1
+            k = self.nuse
+            if own:
+                t, target = self.B()
+            else:
+                t, target = 0, '_'
+            if k in self.dead:
+                it = 'dz(%d)' % t
+            else:
+                arm = 'arm(%d, %d)' % (k, t)
+                it = '\x01U%d\x02' % k + form
         else:
             target, it = '_', '[0]'
         # use/tag numbers only have to be distinct, not in source order
@@ -384,14 +426,18 @@ class Render:
             cond = ' if ' + self.U()
         core = '%s for %s in %s%s' % (elt, target, it, cond)
         if self.style == 'list':
-            return '[' + core + ']'
-        if self.style == 'gen':
-            return 'list(' + core + ')'
-        if self.style == 'set':
-            return '{len(' + elt + ') for %s in %s%s}' % (target, it, cond)
-        if self.style == 'dict':
-            return '{0: ' + core + '}'
-        raise ValueError(self.style)
+            text = '[' + core + ']'
+        elif self.style == 'gen':
+            text = 'list(' + core + ')'
+        elif self.style == 'set':
+            text = '{len(' + elt + ') for %s in %s%s}' % (target, it, cond)
+        elif self.style == 'dict':
+            text = '{0: ' + core + '}'
+        else:
+            raise ValueError(self.style)
+        if arm:
+            text = '(%s, %s)[1]' % (arm, text)
+        return text
 
 
 # --- occurrences of `x` by Python's own parser ------------------------------------------------
@@ -654,20 +700,39 @@ def execute(text, modtags):
     seen = {}
 
     def u(k, v):
-        if isinstance(v, BaseException):
-            tag = v.args[0]
-        elif isinstance(v, types.ModuleType):
-            tag = modtags.get(v.__name__, -1)
+        w = v.args[0] if isinstance(v, BaseException) else v
+        if isinstance(w, Box):
+            tag = w.tag
+        elif isinstance(w, types.ModuleType):
+            tag = modtags.get(w.__name__, -1)
         else:
-            tag = v
+            tag = w
         seen.setdefault(k, set()).add(tag)
         return v
+
+    armed = []
+
+    class Box:
+        def __init__(self, tag):
+            self.tag = tag
+
+        def copy(self):
+            return self
+
+        def __getitem__(self, i):
+            return self
+
+        def __iter__(self):
+            k, t = armed.pop()
+            seen.setdefault(k, set()).add(self.tag)
+            return iter([Box(t)])
 
     try:
         code = compile(text, '<c03>', 'exec')
     except (SyntaxError, ValueError) as e:
         return 'nocompile', str(e)
     g = {'u': u, 'cm': _CM, 'o': types.SimpleNamespace(x=0), 'd': (lambda **k: None),
+         'b': Box, 'arm': (lambda k, t: armed.append((k, t))), 'dz': (lambda t: [Box(t)]),
          '__name__': 'c03prog'}
     try:
         exec(code, g)
@@ -718,9 +783,8 @@ def analyse(shape, style):
     occ, kinds = occurrences(text)
     # the symtable view: same program with generator expressions instead of inlined
     # comprehensions (3.12's symtable merges inlined comprehensions into their parent)
-    base, _, distract = style.partition('+')
-    rg = Render(shape, 'gen' + ('+' + distract if distract else ''), r.dead) \
-        if base != 'gen' else r
+    base, opts = split_style(style)
+    rg = Render(shape, '+'.join(['gen'] + opts), r.dead) if base != 'gen' else r
     tabs = tables(rg.text)
     occ_g, kinds_g = (occurrences(rg.text) if rg is not r else (occ, kinds))
     if [(o['role'], o['path']) for o in occ] != [(o['role'], o['path']) for o in occ_g] \
